@@ -43,7 +43,7 @@ def gen_cases(out, explore):
         stream = []
         for k in range(n):
             i = 1 + rnd.randrange(pool)
-            par = None if rnd.random() < 0.3 else 1 + rnd.randrange(pool + 2)
+            par = None if rnd.random() < 0.3 else (0 if rnd.random() < 0.15 else 1 + rnd.randrange(pool + 2))   # 0 = "" (OTLP root)
             stream.append(mk(i, par, k))
         nruns = rnd.choice([1, 1, 2, 3])
         cuts = sorted(rnd.randrange(n + 1) for _ in range(nruns - 1))
@@ -92,9 +92,9 @@ def spec(case):
             if e["id"] not in have:
                 have.add(e["id"])
                 nodes.append(e)
-                if e["par"] is not None:
+                if e["par"]:
                     assoc.append((e["par"], e["id"]))
-    return nodes, assoc
+    return [dict(e, par=e["par"] or None) for e in nodes], assoc
 
 
 def inv_holds(case):
@@ -108,7 +108,7 @@ def cases_v(items) -> str:
     rows = []
     for case, (status, nodes, assoc) in items:
         init = S.coq_store(case["init"]["nodes"], case["init"]["assoc"]) if case["init"] else "(mkstore [] [] [])"
-        runs = coq_list([S.coq_nodes(r) for r in case["runs"]])
+        runs = coq_list([S.coq_nodes([dict(e, par=e["par"] or None) for e in r]) for r in case["runs"]])
         res = "None" if any(s != "ok" for s in status) else f"(Some {S.coq_store(nodes, assoc)})"
         rows.append(f"(({case['bs']}%nat, {init}, {runs}), {res})")
     body = ";\n ".join(rows)
